@@ -42,6 +42,11 @@ def _grids():
 def _apply(obj, op, grids, q):
     """Execute one operation; returns ('value', observable list) or ('exc', type name)."""
     try:
+        if op == "scaleA":
+            # the caller converts its own time array to other units in place (days -> scaled time) before simulating on it
+            # again: not a call on the object, but the object was handed this very array earlier
+            grids["simA"] *= Q(4)
+            return "value", []
         if op == "simAs":
             obj.simulate(grids["simA"], grids["sched"])
             return "value", []
@@ -101,7 +106,10 @@ def replay_history(model, cls="SinglePhaseReservoir", hist=(), pf0d=False):
         last_rec = None
         for n_, op in enumerate(ops):
             try:
-                if op == "simAs":
+                if op == "scaleA":
+                    grids["simA"] *= 4.0
+                    last = ("value", [])
+                elif op == "simAs":
                     o.simulate(grids["simA"], sched)
                     last = ("value", [])
                 elif op in GRID_LEN:
@@ -161,7 +169,12 @@ def replay_history(model, cls="SinglePhaseReservoir", hist=(), pf0d=False):
 
 # ------------------------------------------------------------------ job
 
-def job_histories(job, cls, L, chunk, nchunks, pf0d=False):
+# histories in which the caller rescales, in place, the time array it simulated on and simulates on it again
+INPLACE = [("simA", "rf", "scaleA", "simA", "rf"), ("simA", "scaleA", "simA", "interp"), ("simA", "rf", "scaleA", "simA", "interp"), ("simA", "scaleA", "simA", "rfd"),
+           ("simA", "scaleA", "simA")]
+
+
+def job_histories(job, cls, L, chunk, nchunks, pf0d=False, given=None):
     mod = load_reservoir()
     job.encoded(mod, f"{cls}.simulate", "IdealReservoir.recovery_factor", "IdealReservoir.recovery_factor_interpolator")
     job.stub("linear solve: ideal, memoised on the syntactic system", "fluid*: contract stub with a 2-row (m-scaled, density) table",
@@ -169,6 +182,8 @@ def job_histories(job, cls, L, chunk, nchunks, pf0d=False):
     ops = [o for o in OPS if not (cls == "IdealReservoir" and o in ("rfd", "simAs"))]
     hists = [h for n in range(1, L + 1) for h in itertools.product(ops, repeat=n)]
     mine = [h for i, h in enumerate(hists) if i % nchunks == chunk]
+    if given is not None:
+        mine = [h for h in given if not (cls == "IdealReservoir" and "rfd" in h)]
     job.bound(history_length=L, operations=list(ops), nx=3, grid_lengths=dict(GRID_LEN), histories_total=len(hists))
     nx = 3
     checked = 0
@@ -295,4 +310,6 @@ def jobs(tier):
             out.append((f"hist-{cls[:6]}-{c}", lambda j, cl=cls, c=c: job_histories(j, cl, L, c, n)))
     for cls in ("IdealReservoir", "SinglePhaseReservoir"):
         out.append((f"hist-0d-fracface-{cls[:6]}", lambda j, cl=cls: job_histories(j, cl, 3, 0, 1, pf0d=True)))
+    for cls in ("IdealReservoir", "SinglePhaseReservoir"):
+        out.append((f"hist-grid-rescaled-in-place-{cls[:6]}", lambda j, cl=cls: job_histories(j, cl, 5, 1, 2, given=INPLACE)))
     return out
